@@ -40,6 +40,12 @@ HARNESS = {
     'C12': ('harness.sim_props', 'run_C12', 'replay_C12'),
     'C16': ('harness.sim_props', 'run_C16', 'replay_C16'),
     'C17': ('harness.sim_props', 'run_C17', 'replay_C17'),
+    'C14': ('harness.ctl_h', 'run_C14', 'replay_C14'),
+    'C08': ('harness.motor_h', 'run_C08', 'replay_C08'),
+    'C09': ('harness.gears_h', 'run_C09', 'replay_C09'),
+    'C10': ('harness.rel_h', 'run_C10', 'replay_C10'),
+    'C20': ('harness.rel_h', 'run_C20', 'replay_C20'),
+    'C15': ('harness.ctl_h', 'run_C15', 'replay_C15'),
 }
 
 TRUSTED_BASE = [
